@@ -19,6 +19,7 @@ from typing import Any, Optional
 SCHEMA_SDL = '''
 module default {
     scalar type Color extending enum<Red, Green, Blue>;
+    scalar type Shade extending Color;
     abstract type Named {
         required name: str { constraint exclusive; }
     }
@@ -33,6 +34,7 @@ module default {
         multi awards: Award { constraint exclusive; }
         avatar: Card { text: str; }
         color: Color;
+        shade: Shade;
         tags: array<str>;
         pos: tuple<x: int64, y: int64>;
         property shout := .name ++ '!';
